@@ -242,7 +242,7 @@ def generic_lints(ctx: Ctx, rule: str = "lint"):
     from ..loader import AnalysisError
     from ..scope import in_scope
 
-    if L.self_check() != (6, 0):
+    if L.self_check() != (15, 0):
         raise AnalysisError(f"generic lints: the positive control is no longer recognised {L.self_check()}")
     n, hits = 0, []
     for m in ctx.repo.all_members():
@@ -257,4 +257,131 @@ def generic_lints(ctx: Ctx, rule: str = "lint"):
     for where, kind, why in hits:
         ctx.violated(f"{rule}.{kind}", where, kind, "see cubeverif/lints.py", why)
     if not hits:
-        ctx.held(rule, "this property's code: floor division, int casts, identity with literals, unordered sets", f"{n} functions scanned, none found", "", "positive control: 6 of 6 recognised")
+        ctx.held(rule, "this property's code: floor division, int casts, identity with literals, unordered sets", f"{n} functions scanned, none found", "", "positive control: 15 of 15 recognised")
+
+
+# --------------------------------------------------------------------------- dependency footprints of the measures
+FOOTPRINT_PLUMBING = ("Cube.ndim", "Cube.dimension_types", "Cube.dimensions", "Dimension.apply_transforms")
+FOOTPRINT_WORDS = {
+    "C01": ("means", "medians", "stddev", "sums", "weighted_counts", "unweighted_counts"),
+    "C02": ("base", "comparable_counts"),
+    "C03": ("proportion",),
+    "C09": ("pruning",),
+    "C11": ("variance", "std_err", "stderr", "stddev"),
+    "C12": ("zscores", "pvalues"),
+    "C14": ("scale",),
+    "C15": ("share_sum",),
+    "C16": ("column_index",),
+    "C17": ("population",),
+    "C20": ("smoothed",),
+}
+FOOTPRINT_EXCLUDE = {"C01": ("scale", "smoothed", "proportion", "population"), "C02": ("squared",), "C03": ("variance", "population", "stderr", "stddev", "smoothed"), "C11": ("scale", "population"),
+                     "C14": ("smoothed",), "C16": ("smoothed",)}
+
+
+def dependency_footprints(ctx: Ctx, rule: str = "footprint"):
+    """What each measure of the two measure collections DEPENDS ON (FLOW leaf reads of its blocks, before assembly) is
+    compared with the table confirmed on the pinned tree (specs/footprints.json): a measure that starts to depend on
+    other data (the pruning mask's unweighted counts in the column index, a weighted flag in the squared base ...) or
+    stops depending on something it is specified from (the dimension type in a wave-difference proportion) has changed
+    its meaning, however the code is spelled.  Plumbing reads (number of dimensions, fields of the partition) are
+    ignored.  Only this property's measures are compared."""
+    import json as _json
+    import os as _os
+
+    words = FOOTPRINT_WORDS.get(ctx.prop)
+    if not words:
+        return
+    path = _os.path.join(_os.path.dirname(_os.path.dirname(_os.path.abspath(__file__))), "specs", "footprints.json")
+    frozen = _json.load(open(path))
+    n = 0
+    for tag, coll in (("matrix", slice_measures_obj(ctx)), ("stripe", strand_measures_obj(ctx))):
+        for key, want in sorted(frozen.items()):
+            t, name = key.split(".", 1)
+            if t != tag or not any(w in name for w in words) or any(x in name for x in FOOTPRINT_EXCLUDE.get(ctx.prop, ())):
+                continue
+            where = f"{'matrix/measure.py::SecondOrderMeasures' if tag == 'matrix' else 'stripe/measure.py::StripeMeasures'}.{name} [dependencies]"
+            if ctx.repo.lookup(coll.cls, name) is None:
+                ctx.undecided(rule, where, "measure not found in the collection", "")
+                continue
+            sem = lambda ls: {l for l in ls if l not in FOOTPRINT_PLUMBING and not l.startswith("FIELD:")}
+            got, exp = sem(measure_blocks_reads(ctx, coll, name)), sem(want)
+            n += 1
+            added, removed = sorted(got - exp), sorted(exp - got)
+            if added or removed:
+                ctx.violated(rule, where, f"now also depends on {added}; no longer depends on {removed}", f"depends on {sorted(exp)}",
+                             "the measure is computed from other facts than it is specified from")
+            else:
+                ctx.held(rule, where, f"{len(got)} leaf facts", f"{len(exp)} leaf facts (specs/footprints.json)")
+    ctx.count("measure dependency footprints compared", n)
+    ctx.require_min("measure dependency footprints compared", 1)
+
+
+def id_truthiness(ctx: Ctx, rule: str = "id-truthiness"):
+    """Truth tests of element / insertion ids (0 is a valid category id) in this property's code."""
+    from .. import truthiness as T
+    from ..loader import AnalysisError
+    from ..scope import in_scope
+
+    if T.id_self_check() != 1:
+        raise AnalysisError("id-truthiness lint: the positive control is no longer recognised")
+    n, hits = 0, []
+    for m in ctx.repo.all_members():
+        short = m.cls.module.path.split("cr/cube/")[-1]
+        if not in_scope(ctx.prop, short, m.cls.name, m.name):
+            continue
+        n += 1
+        for _line, context, expr in T.id_truth_tests(m.node):
+            hits.append((f"{short}::{m.cls.name}.{m.name} [{expr[:60]}]", context, expr))
+    for where, context, expr in hits:
+        ctx.violated(rule, where, f"truth test ({context}) of {expr}", "`is None` / membership test", "0 is a valid element id (and '' a valid alias): the reference is treated as unresolvable and the sort / transform silently falls back")
+    if not hits:
+        ctx.held(rule, "this property's code: every truth test", f"{n} functions, no id is tested for truth", "", "positive control recognised")
+
+
+def float64_extractors(ctx: Ctx, rule: str = "float64-payload"):
+    """Every measure extractor (`_flat_values` of the _BaseMeasure family, and its helpers) hands out np.float64 arrays on
+    EVERY array-returning path: integer payloads kept as int64 make the products of bases in the residual / pairwise
+    formulas wrap around for large tables, and cannot hold NaN.  Must-pass-through: each returned array is built by
+    np.array(..., dtype=np.float64) or coerced by .astype(np.float64)."""
+    import ast as _ast
+
+    from ..stmts import reachable_functions, resolver
+    from ..symex import u as _u
+
+    base = ctx.repo.cls("cube.py", "_BaseMeasure")
+    n = 0
+    for ci in [base] + base.all_subclasses():
+        if "_flat_values" not in ci.members:
+            continue
+        fns = reachable_functions(ctx.repo, ci, "_flat_values")
+        for fn in fns:
+            res = resolver(fn, multi=True)
+            for r in _ast.walk(fn):
+                if not (isinstance(r, _ast.Return) and r.value is not None):
+                    continue
+                for v in res(r.value):
+                    # leaves of conditionals
+                    stack, leaves = [v], []
+                    while stack:
+                        x = stack.pop()
+                        if isinstance(x, _ast.IfExp):
+                            stack += [x.body, x.orelse]
+                        else:
+                            leaves.append(x)
+                    for leaf in leaves:
+                        t = _u(leaf)
+                        if t == "None" or not ("np.array(" in t or ".astype(" in t or "np.asarray(" in t or t in ("counts", "values", "data")):
+                            continue
+                        n += 1
+                        is_float = ("dtype=np.float64" in t and t.rstrip(")").count("np.array(") >= 1 and (t.startswith("np.array(") or t.startswith("np.asarray("))) or t.endswith(".astype(np.float64)")
+                        # an outer np.array(..., dtype=np.float64) wrapping anything is float
+                        if isinstance(leaf, _ast.Call) and _u(leaf.func) in ("np.array", "np.asarray") and any(k.arg == "dtype" and _u(k.value) in ("np.float64", "float", "'float64'") for k in leaf.keywords):
+                            is_float = True
+                        where = f"cube.py::{ci.name}.{fn.name} [{t[:60]}]"
+                        if is_float:
+                            ctx.held(rule, where, "float64", "np.float64 array")
+                        else:
+                            ctx.violated(rule, where, t[:120], "np.array(..., dtype=np.float64) / .astype(np.float64)", "an integer payload keeps an integer dtype: products of bases overflow int64 for large tables and NaN cannot be stored")
+    ctx.count("measure extractor array returns", n)
+    ctx.require_min("measure extractor array returns", 8)
